@@ -1,7 +1,959 @@
 package main
 
-// Replay of solver counterexamples on the real code (DESIGN.md 2.12, D.8).
+// Replay of solver counterexamples on the real code (DESIGN.md 2.12, D.8): the model is
+// projected onto the function's inputs (parameters, reachable heap to a small depth), a Go
+// test is generated that rebuilds those inputs inside the package (so unexported fields are
+// reachable), calls the real function and checks the failed obligation: a panic for safety
+// obligations, the post-condition itself when it lies in the executable fragment.
 
-func tryReplay(p *Prog, o *Obligation, path string) bool { return false }
+import (
+	"context"
+	"encoding/json"
+	"fmt"
+	"go/types"
+	"math"
+	"os"
+	"os/exec"
+	"path/filepath"
+	"regexp"
+	"sort"
+	"strconv"
+	"strings"
+	"time"
 
-func runReplayTest(rf *replayFile) int { return 1 }
+	"golang.org/x/tools/go/ssa"
+)
+
+var replayRepo = "/repo"
+
+type modelEval struct {
+	base  string // SMT query text up to and including (check-sat)
+	dir   string
+	cache map[string]string
+	runs  int
+}
+
+func newModelEval(o *Obligation) *modelEval {
+	q := o.smt(false)
+	return &modelEval{base: q, cache: map[string]string{}}
+}
+
+// eval returns the model values of the given terms (one solver run).
+func (m *modelEval) eval(terms []string) map[string]string {
+	out := map[string]string{}
+	var need []string
+	for _, t := range terms {
+		if v, ok := m.cache[t]; ok {
+			out[t] = v
+		} else {
+			need = append(need, t)
+		}
+	}
+	if len(need) == 0 {
+		return out
+	}
+	if m.runs > 400 {
+		return out
+	}
+	m.runs++
+	var sb strings.Builder
+	sb.WriteString(m.base)
+	for _, t := range need {
+		sb.WriteString("(get-value (" + t + "))\n")
+	}
+	f, err := os.CreateTemp("", "govc-model-*.smt2")
+	if err != nil {
+		return out
+	}
+	defer os.Remove(f.Name())
+	f.WriteString(sb.String())
+	f.Close()
+	ctx, cancel := context.WithTimeout(context.Background(), 20*time.Second)
+	defer cancel()
+	res, _ := exec.CommandContext(ctx, "z3-new", "-t:15000", f.Name()).CombinedOutput()
+	lines := splitSexprs(string(res))
+	if len(lines) == 0 || strings.TrimSpace(lines[0]) != "sat" {
+		return out
+	}
+	vals := lines[1:]
+	for i, t := range need {
+		if i >= len(vals) {
+			break
+		}
+		v := strings.TrimSpace(vals[i])
+		// "((term value))"
+		if strings.HasPrefix(v, "((") && strings.HasSuffix(v, "))") {
+			inner := v[2 : len(v)-2]
+			// value is the last s-expression of inner
+			val := lastSexpr(inner)
+			m.cache[t] = val
+			out[t] = val
+		}
+	}
+	return out
+}
+
+// splitSexprs splits solver output into top-level items (atoms on their own line or
+// balanced s-expressions).
+func splitSexprs(s string) []string {
+	var out []string
+	i := 0
+	for i < len(s) {
+		for i < len(s) && (s[i] == ' ' || s[i] == '\n' || s[i] == '\t' || s[i] == '\r') {
+			i++
+		}
+		if i >= len(s) {
+			break
+		}
+		if s[i] != '(' {
+			j := i
+			for j < len(s) && s[j] != '\n' {
+				j++
+			}
+			out = append(out, s[i:j])
+			i = j
+			continue
+		}
+		depth := 0
+		j := i
+		inStr := false
+		for j < len(s) {
+			c := s[j]
+			if c == '"' {
+				inStr = !inStr
+			} else if !inStr {
+				if c == '(' {
+					depth++
+				} else if c == ')' {
+					depth--
+					if depth == 0 {
+						j++
+						break
+					}
+				}
+			}
+			j++
+		}
+		out = append(out, s[i:j])
+		i = j
+	}
+	return out
+}
+
+func lastSexpr(s string) string {
+	s = strings.TrimSpace(s)
+	if strings.HasSuffix(s, ")") {
+		depth := 0
+		inStr := false
+		for i := len(s) - 1; i >= 0; i-- {
+			c := s[i]
+			if c == '"' {
+				inStr = !inStr
+			} else if !inStr {
+				if c == ')' {
+					depth++
+				} else if c == '(' {
+					depth--
+					if depth == 0 {
+						return s[i:]
+					}
+				}
+			}
+		}
+		return s
+	}
+	if strings.HasSuffix(s, "\"") {
+		// string literal: scan back to its opening quote (doubled quotes are escapes)
+		i := len(s) - 2
+		for i >= 0 {
+			if s[i] == '"' {
+				if i > 0 && s[i-1] == '"' {
+					i -= 2
+					continue
+				}
+				return s[i:]
+			}
+			i--
+		}
+		return s
+	}
+	k := strings.LastIndexAny(s, " \n\t")
+	return s[k+1:]
+}
+
+func parseSMTInt(v string) (int64, bool) {
+	v = strings.TrimSpace(v)
+	neg := false
+	if strings.HasPrefix(v, "(- ") {
+		neg = true
+		v = strings.TrimSuffix(strings.TrimPrefix(v, "(- "), ")")
+	}
+	n, err := strconv.ParseInt(strings.TrimSpace(v), 10, 64)
+	if err != nil {
+		// may exceed int64 (uint64 values)
+		u, err2 := strconv.ParseUint(strings.TrimSpace(v), 10, 64)
+		if err2 != nil {
+			return 0, false
+		}
+		return int64(u), true
+	}
+	if neg {
+		n = -n
+	}
+	return n, true
+}
+
+var reUnicode = regexp.MustCompile(`\\u\{([0-9a-fA-F]+)\}`)
+
+func parseSMTString(v string) (string, bool) {
+	v = strings.TrimSpace(v)
+	if len(v) < 2 || v[0] != '"' || v[len(v)-1] != '"' {
+		return "", false
+	}
+	body := strings.ReplaceAll(v[1:len(v)-1], `""`, `"`)
+	var sb strings.Builder
+	i := 0
+	for i < len(body) {
+		if loc := reUnicode.FindStringSubmatchIndex(body[i:]); loc != nil && loc[0] == 0 {
+			n, _ := strconv.ParseUint(body[i+loc[2]:i+loc[3]], 16, 32)
+			if n < 256 {
+				sb.WriteByte(byte(n))
+			} else {
+				sb.WriteRune(rune(n))
+			}
+			i += loc[1]
+			continue
+		}
+		sb.WriteByte(body[i])
+		i++
+	}
+	return sb.String(), true
+}
+
+func parseSMTFloat(v string) (float64, bool) {
+	v = strings.TrimSpace(v)
+	switch {
+	case strings.HasPrefix(v, "(_ +zero"):
+		return 0, true
+	case strings.HasPrefix(v, "(_ -zero"):
+		return math.Copysign(0, -1), true
+	case strings.HasPrefix(v, "(_ +oo"):
+		return math.Inf(1), true
+	case strings.HasPrefix(v, "(_ -oo"):
+		return math.Inf(-1), true
+	case strings.HasPrefix(v, "(_ NaN"):
+		return math.NaN(), true
+	}
+	if strings.HasPrefix(v, "(fp ") {
+		f := strings.Fields(strings.TrimSuffix(strings.TrimPrefix(v, "(fp "), ")"))
+		if len(f) != 3 {
+			return 0, false
+		}
+		bits := func(s string) (uint64, int, bool) {
+			if strings.HasPrefix(s, "#b") {
+				n, err := strconv.ParseUint(s[2:], 2, 64)
+				return n, len(s) - 2, err == nil
+			}
+			if strings.HasPrefix(s, "#x") {
+				n, err := strconv.ParseUint(s[2:], 16, 64)
+				return n, 4 * (len(s) - 2), err == nil
+			}
+			return 0, 0, false
+		}
+		s, _, ok1 := bits(f[0])
+		e, _, ok2 := bits(f[1])
+		mnt, _, ok3 := bits(f[2])
+		if !ok1 || !ok2 || !ok3 {
+			return 0, false
+		}
+		return math.Float64frombits(s<<63 | e<<52 | mnt), true
+	}
+	return 0, false
+}
+
+// ---- input reconstruction ----
+
+type builder struct {
+	vc     *FnVC
+	m      *modelEval
+	st     *State // entry state
+	stmts  []string
+	objs   map[string]string // "type@ref" -> Go variable
+	n      int
+	inputs map[string]string
+	ok     bool
+	why    string
+	pkg    *types.Package
+	imports map[string]bool
+}
+
+func (b *builder) fresh() string { b.n++; return fmt.Sprintf("x%d", b.n) }
+
+func (b *builder) typeStr(t types.Type) string {
+	return types.TypeString(t, func(p *types.Package) string {
+		if p == b.pkg {
+			return ""
+		}
+		b.imports[p.Path()] = true
+		return p.Name()
+	})
+}
+
+func (b *builder) get(term string) string {
+	r := b.m.eval([]string{term})
+	return r[term]
+}
+
+// value builds a Go expression for the model value of term (of Go type t).
+func (b *builder) value(term string, t types.Type, depth int) string {
+	vc := b.vc
+	switch u := t.Underlying().(type) {
+	case *types.Basic:
+		v := b.get(term)
+		switch {
+		case u.Info()&types.IsBoolean != 0:
+			if v == "true" {
+				return "true"
+			}
+			return "false"
+		case u.Info()&types.IsInteger != 0:
+			n, ok := parseSMTInt(v)
+			if !ok {
+				return "0"
+			}
+			if u.Info()&types.IsUnsigned != 0 {
+				return fmt.Sprintf("%s(%d)", b.typeStr(t), uint64(n))
+			}
+			return fmt.Sprintf("%s(%d)", b.typeStr(t), n)
+		case u.Info()&types.IsFloat != 0:
+			f, ok := parseSMTFloat(v)
+			if !ok {
+				return "0"
+			}
+			b.imports["math"] = true
+			return fmt.Sprintf("%s(math.Float64frombits(0x%x))", b.typeStr(t), math.Float64bits(f))
+		case u.Info()&types.IsString != 0:
+			s, _ := parseSMTString(v)
+			return fmt.Sprintf("%s(%q)", b.typeStr(t), s)
+		}
+		return "nil"
+	case *types.Pointer:
+		v := b.get(term)
+		ref, ok := parseSMTInt(v)
+		if !ok || ref == 0 {
+			return "nil"
+		}
+		key := fmt.Sprintf("%s@%d", types.TypeString(u.Elem(), nil), ref)
+		if name, ok := b.objs[key]; ok {
+			return name
+		}
+		name := b.fresh()
+		b.objs[key] = name
+		b.stmts = append(b.stmts, fmt.Sprintf("%s := new(%s)", name, b.typeStr(u.Elem())))
+		if depth <= 0 {
+			return name
+		}
+		b.fill(name, fmt.Sprint(refLit(ref)), u.Elem(), depth)
+		return name
+	case *types.Slice:
+		lnS := b.get("(sl-len " + term + ")")
+		arrS := b.get("(sl-arr " + term + ")")
+		offS := b.get("(sl-off " + term + ")")
+		ln, _ := parseSMTInt(lnS)
+		arr, _ := parseSMTInt(arrS)
+		off, _ := parseSMTInt(offS)
+		if arr == 0 {
+			return "nil"
+		}
+		if ln > 6 {
+			ln = 6
+			b.why = "slice truncated"
+		}
+		if _, isStruct := u.Elem().Underlying().(*types.Struct); isStruct {
+			return b.typeStr(t) + "{}"
+		}
+		comp, _ := vc.elemComp(u.Elem())
+		var elems []string
+		for i := int64(0); i < ln; i++ {
+			et := sel(sel(vc.cur(b.st, comp), refLit(arr)), intLitI(off+i))
+			elems = append(elems, b.value(et, u.Elem(), depth-1))
+		}
+		return b.typeStr(t) + "{" + strings.Join(elems, ", ") + "}"
+	case *types.Map:
+		v := b.get(term)
+		ref, ok := parseSMTInt(v)
+		if !ok || ref == 0 {
+			return "nil"
+		}
+		key := fmt.Sprintf("%s@%d", types.TypeString(t, nil), ref)
+		if name, ok := b.objs[key]; ok {
+			return name
+		}
+		name := b.fresh()
+		b.objs[key] = name
+		b.stmts = append(b.stmts, fmt.Sprintf("%s := %s{}", name, b.typeStr(t)))
+		mh, mv, ks, _ := vc.mapComps(u)
+		if ks != sString && ks != sInt {
+			return name
+		}
+		// candidate keys: every key term used with this map sort in the VC, plus string literals
+		seen := map[string]bool{}
+		for _, kt := range vc.keyTerms[ks] {
+			kv := b.get(kt)
+			if kv == "" || seen[kv] {
+				continue
+			}
+			seen[kv] = true
+			has := b.get(sel(sel(vc.cur(b.st, mh), refLit(ref)), kv))
+			if has != "true" {
+				continue
+			}
+			var kGo string
+			if ks == sString {
+				s, _ := parseSMTString(kv)
+				kGo = fmt.Sprintf("%q", s)
+			} else {
+				n, _ := parseSMTInt(kv)
+				kGo = fmt.Sprint(n)
+			}
+			val := b.value(sel(sel(vc.cur(b.st, mv), refLit(ref)), kv), u.Elem(), depth-1)
+			b.stmts = append(b.stmts, fmt.Sprintf("%s[%s] = %s", name, kGo, val))
+		}
+		return name
+	case *types.Interface:
+		tagS := b.get("(if-tag " + term + ")")
+		tag, _ := parseSMTInt(tagS)
+		if tag == 0 {
+			return "nil"
+		}
+		ct, ok := vc.prog.tagType[int(tag)]
+		if !ok {
+			b.why = "interface value of a type unknown to the VC"
+			return "nil"
+		}
+		inner := vc.enc.unbox("(if-data "+term+")", ct)
+		return b.typeStr(t) + "(" + b.value(inner, ct, depth-1) + ")"
+	case *types.Struct:
+		sortName := vc.enc.sortOf(t)
+		var fs []string
+		for i := 0; i < u.NumFields(); i++ {
+			fs = append(fs, u.Field(i).Name()+": "+b.value(fmt.Sprintf("(%s$%d %s)", sortName, i, term), u.Field(i).Type(), depth-1))
+		}
+		return b.typeStr(t) + "{" + strings.Join(fs, ", ") + "}"
+	case *types.Signature:
+		return "nil"
+	}
+	return "nil"
+}
+
+func refLit(r int64) string { return intLitI(r) }
+
+// fill assigns the fields of the object at ref (of type t) into Go variable name.
+func (b *builder) fill(name, ref string, t types.Type, depth int) {
+	vc := b.vc
+	switch u := t.Underlying().(type) {
+	case *types.Struct:
+		for i := 0; i < u.NumFields(); i++ {
+			f := u.Field(i)
+			if _, nested := f.Type().Underlying().(*types.Struct); nested {
+				// embedded by value: its fields live at the emb address
+				fn := "emb$" + typeShort(t) + "$" + f.Name()
+				if !vc.enc.declared[fn] {
+					continue
+				}
+				b.fill(name+"."+f.Name(), "("+fn+" "+ref+")", f.Type(), depth)
+				continue
+			}
+			comp := "F$" + typeShort(t) + "$" + f.Name()
+			if _, used := vc.compSort[comp]; !used {
+				continue // the VC never mentions this field
+			}
+			val := b.value(sel(vc.cur(b.st, comp), ref), f.Type(), depth-1)
+			if val == "nil" || val == "false" || val == "0" {
+				continue
+			}
+			if f.Pkg() != nil && f.Pkg() != b.pkg && !f.Exported() {
+				b.why = "unexported field of another package"
+				continue
+			}
+			b.stmts = append(b.stmts, fmt.Sprintf("%s.%s = %s", name, f.Name(), val))
+		}
+	default:
+		comp, _ := vc.cellComp(t)
+		if _, used := vc.compSort[comp]; !used {
+			return
+		}
+		val := b.value(sel(vc.cur(b.st, comp), ref), t, depth-1)
+		b.stmts = append(b.stmts, fmt.Sprintf("*%s = %s", name, val))
+	}
+}
+
+// tryReplay builds and runs the replay test; it returns true when the real code confirms the
+// violation. The replay file at path is updated with what was found.
+func tryReplay(p *Prog, o *Obligation, path string) bool {
+	vc := o.vc
+	if vc == nil || vc.failed != "" || o.Class == "frame-scan" {
+		return false
+	}
+	fn := vc.fn
+	var rf replayFile
+	data, err := os.ReadFile(path)
+	if err != nil || json.Unmarshal(data, &rf) != nil {
+		return false
+	}
+	save := func() {
+		d, _ := json.MarshalIndent(rf, "", " ")
+		os.WriteFile(path, d, 0o644)
+	}
+	if fn.Parent() != nil || fn.Pkg == nil {
+		rf.Replayed = "not attempted: closures are not callable from a test"
+		save()
+		return false
+	}
+	b := &builder{vc: vc, m: newModelEval(o), st: vc.entry, objs: map[string]string{}, inputs: map[string]string{}, pkg: fn.Pkg.Pkg, imports: map[string]bool{}}
+	// inputs
+	var args []string
+	var recvExpr string
+	for i, prm := range fn.Params {
+		term := "p$" + sanitize(prm.Name())
+		ge := b.value(term, prm.Type(), 3)
+		b.inputs[prm.Name()] = ge
+		if i == 0 && fn.Signature.Recv() != nil {
+			recvExpr = ge
+			continue
+		}
+		args = append(args, ge)
+	}
+	rf.Inputs = map[string]string{}
+	for k, v := range b.inputs {
+		rf.Inputs[k] = v
+	}
+	rf.Inputs["(construction)"] = strings.Join(b.stmts, "; ")
+	// the check
+	var check string
+	callee := fn.Name()
+	call := callee + "(" + strings.Join(args, ", ") + ")"
+	if recvExpr != "" {
+		call = "(" + recvExpr + ")." + callee + "(" + strings.Join(args, ", ") + ")"
+		if _, isPtr := fn.Signature.Recv().Type().(*types.Pointer); isPtr && recvExpr == "nil" {
+			call = "((" + b.typeStr(fn.Signature.Recv().Type()) + ")(nil))." + callee + "(" + strings.Join(args, ", ") + ")"
+		}
+	}
+	if fn.Signature.Variadic() && len(args) > 0 {
+		call = strings.TrimSuffix(call, ")") + "...)"
+	}
+	nres := fn.Signature.Results().Len()
+	var lhs string
+	if nres > 0 {
+		var rs []string
+		for i := 0; i < nres; i++ {
+			rs = append(rs, fmt.Sprintf("r%d", i))
+		}
+		lhs = strings.Join(rs, ", ") + " := "
+	}
+	switch o.Class {
+	case "safety", "call-pre":
+		check = "\tdefer func() {\n\t\tif r := recover(); r != nil {\n\t\t\tt.Logf(\"GOVC-REPLAY-CONFIRMED panic: %v\", r)\n\t\t\treturn\n\t\t}\n\t\tt.Log(\"GOVC-REPLAY-NOT-CONFIRMED: returned normally\")\n\t}()\n"
+		check += "\t" + strings.Replace(lhs, ":=", "=", 1)
+		if nres > 0 {
+			var rs []string
+			for i := 0; i < nres; i++ {
+				rs = append(rs, "_")
+			}
+			check = strings.Replace(check, strings.Replace(lhs, ":=", "=", 1), strings.Join(rs, ", ")+" = ", 1)
+		}
+		check += call + "\n"
+	case "post":
+		// executable fragment of the post-condition
+		var cl *Clause
+		for i, c := range vc.fc.Ensures {
+			d := fmt.Sprintf("%d", i)
+			if c.Name != "" {
+				d = c.Name
+			}
+			if o.Detail == d || strings.HasPrefix(o.Name, vc.shortName()+"/post/"+d+"#") || o.Name == vc.shortName()+"/post/"+d {
+				cl = c
+			}
+		}
+		if cl == nil {
+			rf.Replayed = "not attempted: post-condition not found"
+			save()
+			return false
+		}
+		gc := &goCompiler{b: b, vc: vc, results: nres, params: map[string]bool{}}
+		for _, prm := range fn.Params {
+			gc.params[prm.Name()] = true
+		}
+		cond, ok := gc.compile(cl.E)
+		if !ok {
+			rf.Replayed = "not attempted: post-condition outside the executable fragment (" + gc.why + ")"
+			save()
+			return false
+		}
+		// bind parameters to the constructed inputs
+		var binds []string
+		for _, prm := range fn.Params {
+			binds = append(binds, fmt.Sprintf("\t%s := %s\n\t_ = %s\n", prm.Name(), b.inputs[prm.Name()], prm.Name()))
+		}
+		// call through the bound names
+		var argNames []string
+		for i, prm := range fn.Params {
+			if i == 0 && fn.Signature.Recv() != nil {
+				continue
+			}
+			argNames = append(argNames, prm.Name())
+		}
+		call2 := callee + "(" + strings.Join(argNames, ", ") + ")"
+		if fn.Signature.Recv() != nil {
+			call2 = fn.Params[0].Name() + "." + call2
+		}
+		check = strings.Join(binds, "") + strings.Join(gc.pre, "") + "\t" + lhs + call2 + "\n"
+		for i := 0; i < nres; i++ {
+			check += fmt.Sprintf("\t_ = r%d\n", i)
+		}
+		check += "\tif !(" + cond + ") {\n\t\tt.Log(\"GOVC-REPLAY-CONFIRMED post-condition false on the real code\")\n\t} else {\n\t\tt.Log(\"GOVC-REPLAY-NOT-CONFIRMED: post-condition holds for this input\")\n\t}\n"
+	default:
+		rf.Replayed = "not attempted: obligation class " + o.Class
+		save()
+		return false
+	}
+	var imps []string
+	imps = append(imps, "\"testing\"")
+	for ip := range b.imports {
+		if ip == fn.Pkg.Pkg.Path() {
+			continue
+		}
+		imps = append(imps, fmt.Sprintf("%q", ip))
+	}
+	sort.Strings(imps)
+	testName := "TestGovcReplay"
+	src := "package " + fn.Pkg.Pkg.Name() + "\n\nimport (\n\t" + strings.Join(imps, "\n\t") + "\n)\n\nfunc " + testName + "(t *testing.T) {\n"
+	for _, s := range b.stmts {
+		src += "\t" + s + "\n"
+	}
+	for _, v := range b.objs {
+		src += "\t_ = " + v + "\n"
+	}
+	src += check + "}\n"
+	rf.ReplayTest = src
+	rf.Function = fn.Pkg.Pkg.Path()
+	save()
+	code := runReplayTest(&rf)
+	rf2 := rf
+	d, _ := json.MarshalIndent(rf2, "", " ")
+	os.WriteFile(path, d, 0o644)
+	return code == 0
+}
+
+// runReplayTest runs the generated test in the package through an overlay (nothing is written
+// to the repository). Exit code 0 = the violation is confirmed on the real code.
+func runReplayTest(rf *replayFile) int {
+	repo := replayRepo
+	pkgPath := rf.Function
+	rel := strings.TrimPrefix(pkgPath, modulePath)
+	dir := filepath.Join(repo, rel)
+	tmp, err := os.MkdirTemp("", "govc-replay-")
+	if err != nil {
+		return 2
+	}
+	defer os.RemoveAll(tmp)
+	testFile := filepath.Join(tmp, "zz_govc_replay_test.go")
+	os.WriteFile(testFile, []byte(rf.ReplayTest), 0o644)
+	ov := map[string]any{"Replace": map[string]string{filepath.Join(dir, "zz_govc_replay_test.go"): testFile}}
+	ovData, _ := json.Marshal(ov)
+	ovFile := filepath.Join(tmp, "overlay.json")
+	os.WriteFile(ovFile, ovData, 0o644)
+	ctx, cancel := context.WithTimeout(context.Background(), 120*time.Second)
+	defer cancel()
+	cmd := exec.CommandContext(ctx, "go", "test", "-overlay", ovFile, "-vet=off", "-count=1", "-timeout", "60s", "-run", "^TestGovcReplay$", "-v", ".")
+	cmd.Dir = dir
+	cmd.Env = append(os.Environ(), "GOFLAGS=-mod=mod", "GOPROXY=off", "GOSUMDB=off", "GOTOOLCHAIN=local")
+	out, _ := cmd.CombinedOutput()
+	s := string(out)
+	if len(s) > 6000 {
+		s = s[:6000]
+	}
+	rf.ReplayOut = s
+	switch {
+	case strings.Contains(s, "GOVC-REPLAY-CONFIRMED"):
+		rf.Replayed = "confirmed on the real code"
+		fmt.Println("replay: confirmed on the real code")
+		return 0
+	case strings.Contains(s, "panic:") && !strings.Contains(s, "GOVC-REPLAY-NOT-CONFIRMED"):
+		rf.Replayed = "confirmed on the real code (panic)"
+		fmt.Println("replay: confirmed on the real code (panic)")
+		return 0
+	case strings.Contains(s, "GOVC-REPLAY-NOT-CONFIRMED"):
+		rf.Replayed = "model did not reproduce on the real code"
+		fmt.Println("replay: model did not reproduce on the real code")
+		return 1
+	}
+	rf.Replayed = "replay test did not run: " + firstLine(s)
+	fmt.Println("replay: test did not run:", firstLine(s))
+	return 1
+}
+
+// ---- contract expressions -> Go (executable fragment) ----
+
+type goCompiler struct {
+	b       *builder
+	vc      *FnVC
+	results int
+	params  map[string]bool
+	pre     []string // statements evaluated before the call (old(...) snapshots)
+	why     string
+	n       int
+	bound   map[string]string
+}
+
+func (g *goCompiler) fail(why string) (string, bool) {
+	if g.why == "" {
+		g.why = why
+	}
+	return "", false
+}
+
+func (g *goCompiler) compile(x Expr) (string, bool) { return g.compileT(x, "") }
+
+func (g *goCompiler) compileT(x Expr, want string) (string, bool) {
+	switch n := x.(type) {
+	case *EInt:
+		return n.Val, true
+	case *EFloat:
+		return n.Val, true
+	case *EStr:
+		return strconv.Quote(n.Val), true
+	case *EChar:
+		return fmt.Sprintf("%d", n.Val), true
+	case *EIdent:
+		if g.bound != nil {
+			if v, ok := g.bound[n.Name]; ok {
+				return v, true
+			}
+		}
+		switch n.Name {
+		case "nil", "true", "false":
+			return n.Name, true
+		case "result":
+			return "r0", true
+		}
+		if g.params[n.Name] {
+			return n.Name, true
+		}
+		if _, ghost := g.vc.prog.cs.Ghosts[n.Name]; ghost {
+			return g.fail("ghost state")
+		}
+		if g.b.pkg.Scope().Lookup(n.Name) != nil {
+			return n.Name, true
+		}
+		return g.fail("identifier " + n.Name)
+	case *EOld:
+		inner, ok := g.compile(n.X)
+		if !ok {
+			return "", false
+		}
+		g.n++
+		name := fmt.Sprintf("old%d", g.n)
+		g.pre = append(g.pre, fmt.Sprintf("\t%s := %s\n", name, inner))
+		return name, true
+	case *EUn:
+		v, ok := g.compile(n.X)
+		if !ok {
+			return "", false
+		}
+		return "(" + n.Op + v + ")", true
+	case *EBin:
+		l, ok1 := g.compile(n.L)
+		if !ok1 {
+			return "", false
+		}
+		r, ok2 := g.compile(n.R)
+		if !ok2 {
+			return "", false
+		}
+		switch n.Op {
+		case "==>":
+			return "(!(" + l + ") || (" + r + "))", true
+		case "<==>":
+			return "((" + l + ") == (" + r + "))", true
+		}
+		return "(" + l + " " + n.Op + " " + r + ")", true
+	case *ECond:
+		c, ok1 := g.compile(n.C)
+		a, ok2 := g.compileT(n.A, want)
+		bb, ok3 := g.compileT(n.B, want)
+		if !ok1 || !ok2 || !ok3 {
+			return "", false
+		}
+		ty := want
+		if ty == "" {
+			ty = g.typeOf(n.A)
+		}
+		if ty == "" {
+			ty = g.typeOf(n.B)
+		}
+		if ty == "" {
+			return g.fail("untypable conditional")
+		}
+		return "func() " + ty + " { if " + c + " { return " + a + " }; return " + bb + " }()", true
+	case *ESel:
+		if id, ok := n.X.(*EIdent); ok && id.Name == "result" {
+			return "r" + n.Name, true
+		}
+		v, ok := g.compile(n.X)
+		if !ok {
+			return "", false
+		}
+		return v + "." + n.Name, true
+	case *EIndex:
+		v, ok1 := g.compile(n.X)
+		i, ok2 := g.compile(n.I)
+		if !ok1 || !ok2 {
+			return "", false
+		}
+		return v + "[" + i + "]", true
+	case *ESlice:
+		v, ok := g.compile(n.X)
+		if !ok {
+			return "", false
+		}
+		lo, hi := "", ""
+		if n.Lo != nil {
+			lo, ok = g.compile(n.Lo)
+			if !ok {
+				return "", false
+			}
+		}
+		if n.Hi != nil {
+			hi, ok = g.compile(n.Hi)
+			if !ok {
+				return "", false
+			}
+		}
+		return v + "[" + lo + ":" + hi + "]", true
+	case *ECall:
+		id, ok := n.Fun.(*EIdent)
+		if !ok {
+			return g.fail("call")
+		}
+		var args []string
+		for _, a := range n.Args {
+			if _, isT := a.(*ETypeLit); isT {
+				return g.fail("type literal")
+			}
+			v, ok := g.compile(a)
+			if !ok {
+				return "", false
+			}
+			args = append(args, v)
+		}
+		switch id.Name {
+		case "contains", "hasPrefix", "hasSuffix", "indexOf":
+			g.b.imports["strings"] = true
+		}
+		switch id.Name {
+		case "len", "cap":
+			return id.Name + "(" + args[0] + ")", true
+		case "has":
+			return "func() bool { _, ok := " + args[0] + "[" + args[1] + "]; return ok }()", true
+		case "contains":
+			return "strings.Contains(" + args[0] + ", " + args[1] + ")", true
+		case "hasPrefix":
+			return "strings.HasPrefix(" + args[0] + ", " + args[1] + ")", true
+		case "hasSuffix":
+			return "strings.HasSuffix(" + args[0] + ", " + args[1] + ")", true
+		case "indexOf":
+			return "strings.Index(" + args[0] + ", " + args[1] + ")", true
+		case "fromCode":
+			return "string([]byte{byte(" + args[0] + ")})", true
+		case "isNaN":
+			g.b.imports["math"] = true
+			return "math.IsNaN(" + args[0] + ")", true
+		case "isInf":
+			g.b.imports["math"] = true
+			return "math.IsInf(" + args[0] + ", 0)", true
+		}
+		sd, ok := g.vc.prog.cs.Specs[id.Name]
+		if !ok || sd.Body == nil {
+			return g.fail("uninterpreted or builtin function " + id.Name)
+		}
+		// inline the spec: bind parameters through an immediately-invoked closure
+		saved := g.bound
+		nb := map[string]string{}
+		for k, v := range saved {
+			nb[k] = v
+		}
+		var decls []string
+		for i, p := range sd.Params {
+			g.n++
+			vn := fmt.Sprintf("a%d", g.n)
+			pt := g.goType(p.Ty, sd.Pkg)
+			if pt == "" {
+				return g.fail("parameter type of " + sd.Name)
+			}
+			decls = append(decls, fmt.Sprintf("var %s %s = %s; _ = %s", vn, pt, args[i], vn))
+			nb[p.Name] = vn
+		}
+		rt := g.goType(sd.Ret, sd.Pkg)
+		if rt == "" {
+			return g.fail("return type of " + sd.Name)
+		}
+		g.bound = nb
+		body, ok2 := g.compileT(sd.Body, rt)
+		g.bound = saved
+		if !ok2 {
+			return "", false
+		}
+		return "func() " + rt + " { " + strings.Join(decls, "; ") + "; return " + body + " }()", true
+	}
+	return g.fail(fmt.Sprintf("%T", x))
+}
+
+func (g *goCompiler) goType(te TypeExpr, pkg string) string {
+	env := g.vc.newEnv(g.vc.entry, g.vc.entry)
+	if pkg != "" {
+		if pk := g.vc.prog.byPath[pkg]; pk != nil {
+			env.pkg = pk.Types
+		}
+	}
+	var t types.Type
+	func() {
+		defer func() { recover() }()
+		t, _ = env.resolveType(te)
+	}()
+	if t == nil {
+		return ""
+	}
+	return g.b.typeStr(t)
+}
+
+// typeOf: a Go type for a conditional's branches (best effort, via the contract typer).
+func (g *goCompiler) typeOf(x Expr) string {
+	var ty types.Type
+	func() {
+		defer func() { recover() }()
+		env := g.vc.newEnv(g.vc.entry, g.vc.entry)
+		if g.bound != nil {
+			return
+		}
+		saved := len(g.vc.stream)
+		tv := env.tr(x)
+		g.vc.stream = g.vc.stream[:saved]
+		ty = tv.Ty
+	}()
+	if ty == nil {
+		switch x.(type) {
+		case *EStr:
+			return "string"
+		case *EInt:
+			return "int"
+		}
+		return ""
+	}
+	if b, ok := ty.Underlying().(*types.Basic); ok && b.Info()&types.IsUntyped != 0 {
+		ty = types.Default(ty)
+	}
+	return g.b.typeStr(ty)
+}
+
+var _ = ssa.NaiveForm
